@@ -24,6 +24,9 @@ META = {
     'technique': 'static analysis: who-may-write, code<->index agreement, intraprocedural taint with sanitiser, must-fact guards',
 }
 
+
+META['explanation'] += ' Rounds 4-5: ' + 'R6 reads the values interpolated into the GE / IEA templates (%, str.format or f-string): GE02 must be read back from the GS written.'
+
 VISITORS = (('error_997', 'error_997_visitor'), ('error_999', 'error_999_visitor'))
 
 
